@@ -2,7 +2,7 @@
    This file contains only the property theorems about the sequential pull-stream model of
    value/list.go + iterator (Lib/Stream.v); each is closed by an exact lemma application
    (proofs in Lib/StreamProofs.v).  All statements quantify over every pipeline built from
-   map/accept/combine/number/iir/compact/skip/top/+ over numbers(n) and literal lists, every
+   map/accept/combine/number/iir/compact/skip/top/+/cross/merge over numbers(n) and literal lists, every
    closure (arbitrary total functions into ok/error), every consumer and every amount of fuel.
 
    The model follows the repaired code (repo commit "fix: top(n) stops after the n-th element instead
@@ -101,6 +101,53 @@ Theorem C08_multiuse_read_ahead_cost : forall id f p q,
   (count id (fst (drain f p q)) <= occ_pipe id p * snd (drain f p q))%nat.
 Proof. exact drain_count. Qed.
 
+(* ---------------------------------------------------------------- two-source demand: cross and merge
+   cross: p1.cross(p2.map(f), g) with any first list p1, any list p0 under the map, any consumer: the
+   closure f of the SECOND list runs at most once more than g, i.e. element j of the second list is
+   evaluated only when a row reaches column j (the +1: f itself may fail, which ends the run).  The
+   demand on the first list and on everything else is C08_demand_bound / C08_late_errors_invisible,
+   which hold for pipelines containing cross and merge as for all others. *)
+Theorem C08_cross_demand_second : forall ci g p1 id2 f p0 t fuel l o n, id2 <> ci ->
+  occ_pipe id2 p1 = O -> occ_pipe id2 p0 = O -> occ_term id2 t = O ->
+  run fuel t (PCross ci g p1 (PStage (SMap id2 f) p0)) = (l, o, n) ->
+  (count id2 l <= count ci l + 1)%nat.
+Proof. exact run_cross_second. Qed.
+
+(* merge (sequential abstraction of iterator.Merge), demand on BOTH operands:
+   pa.map(fa).merge(pb.map(fb), less).map(fm) with any lists pa, pb and any consumer: each operand is at
+   most one element ahead of what the merge has delivered (counted by the closure fm directly above it). *)
+Theorem C08_merge_demand_both : forall ida idb idm ci fa fb fm less pa pb t fuel l o n,
+  ida <> idb -> idm <> ida -> idm <> idb -> ci <> ida -> ci <> idb ->
+  occ_pipe ida pa = O -> occ_pipe ida pb = O -> occ_pipe idb pa = O -> occ_pipe idb pb = O ->
+  occ_term ida t = O -> occ_term idb t = O ->
+  run fuel t (PStage (SMap idm fm) (PMerge ci less (PStage (SMap ida fa) pa) (PStage (SMap idb fb) pb))) = (l, o, n) ->
+  (count ida l <= count idm l + 1)%nat /\ (count idb l <= count idm l + 1)%nat.
+Proof. exact run_merge_both. Qed.
+
+(* ... and one step of a merge asks at most ONE of the two operands for one step: its log is the log of
+   one step of the first operand, or of the second, or one call of the order closure, or empty *)
+Theorem C08_merge_one_operand_per_step : forall ci less p1 p2 q,
+  exists l r, next (PMerge ci less p1 p2) q = (l, r) /\
+    ((exists q1, l = fst (next p1 q1)) \/ (exists q2, l = fst (next p2 q2)) \/ (exists x y, l = [Ev ci [x; y]]) \/ l = []).
+Proof. exact merge_step_one_side. Qed.
+
+(* merge, recorded finding: the implementation reads each operand through a goroutine (iterator.ToChan)
+   that is one element OF THE OPERAND ahead, i.e. the operand is stepped until it yields again (`drain`),
+   also after the consumer has stopped.  Full statement (what laziness demands): that read-ahead costs a
+   bounded number of steps,  forall fuel p q, snd (drain fuel p q) <= 1.  False: behind accept/compact
+   the next element may be arbitrarily far away or never come. *)
+Theorem C08_merge_operand_read_ahead_refuted :
+  exists fuel p, (snd (drain fuel p (init p)) > 200)%nat /\ (count 1 (fst (drain fuel p (init p))) > 200)%nat.
+Proof.
+  exists 1000%nat, (PStage (SAccept 2 (fun x => Ok (x =? 250))) (PStage (SMap 1 (fun x => Ok x)) (PNumbers 300))).
+  split; vm_compute; lia.
+Qed.
+
+Theorem C08_merge_operand_read_ahead_partial : forall id f p q,
+  is_skip (snd (next p q)) = false ->
+  snd (drain (S f) p q) = 1%nat /\ (count id (fst (drain (S f) p q)) <= occ_pipe id p)%nat.
+Proof. exact drain_one. Qed.
+
 (* ---------------------------------------------------------------- non-vacuity *)
 
 Definition ex_id : fn1 := fun x => Ok x.
@@ -143,6 +190,19 @@ Example C08_top_behind_accept :
   = ([Ev 1 [0]; Ev 2 [0]; Ev 1 [1]; Ev 2 [1]; Ev 1 [2]; Ev 2 [2]; Ev 1 [3]; Ev 2 [3]; Ev 1 [4]; Ev 2 [4]], OInt 5, 6%nat).
 Proof. vm_compute. reflexivity. Qed.
 
+(* cross: [1,2,3].map(f).cross(numbers(5000).map(f'), g).first() evaluates one element of each list *)
+Example C08_cross_first :
+  run 100 TFirst (PCross 7 (fun a b => Ok (a * 100 + b)) (PStage (SMap 5 ex_id) (PList [1; 2; 3])) (PStage (SMap 6 ex_id) (PNumbers 5000)))
+  = ([Ev 5 [1]; Ev 6 [0]; Ev 7 [1; 0]], OInt 100, 2%nat).
+Proof. vm_compute. reflexivity. Qed.
+
+(* merge: [0,7,14].map(f).merge(numbers(5000).map(3x+1), <).map(f'').first(): one element of each operand *)
+Example C08_merge_first :
+  run 100 TFirst (PStage (SMap 2 ex_id) (PMerge 7 (fun a b => Ok (a <? b))
+       (PStage (SMap 5 ex_id) (PList [0; 7; 14])) (PStage (SMap 6 (fun x => Ok (x * 3 + 1))) (PNumbers 5000))))
+  = ([Ev 5 [0]; Ev 6 [0]; Ev 7 [0; 1]; Ev 2 [0]], OInt 0, 3%nat).
+Proof. vm_compute. reflexivity. Qed.
+
 Print Assumptions C08_build_is_free.
 Print Assumptions C08_unconsumed_is_free.
 Print Assumptions C08_demand_bound.
@@ -154,3 +214,8 @@ Print Assumptions C08_present_decided_at_k.
 Print Assumptions C08_multiuse_read_ahead_refuted.
 Print Assumptions C08_multiuse_read_ahead_partial.
 Print Assumptions C08_multiuse_read_ahead_cost.
+Print Assumptions C08_cross_demand_second.
+Print Assumptions C08_merge_demand_both.
+Print Assumptions C08_merge_one_operand_per_step.
+Print Assumptions C08_merge_operand_read_ahead_refuted.
+Print Assumptions C08_merge_operand_read_ahead_partial.
